@@ -39,7 +39,7 @@ pub fn run(ctx: &mut Ctx, _replay: Option<&str>) {
             2 => { m.insert("exp".into(), json!(format!("{}", now + 5000))); ("string", false) }
             3 => { m.insert("exp".into(), json!(-(1 + (r.next() % 100000) as i64))); ("negative", false) }
             4 => { m.insert("exp".into(), json!(now - 120 - r.next() % (10 * Y))); ("past", false) }
-            5 => { m.insert("exp".into(), json!(now - 120 - r.next() % 1000)); ("just-past", false) }
+            5 => { m.insert("exp".into(), json!(now - 70 - r.next() % 1000)); ("just-past", false) }
             6 => { m.insert("exp".into(), json!(now + 3600 + r.next() % 1000)); ("near-future", true) }
             _ => { m.insert("exp".into(), json!(now + 3600 + r.next() % (FAR_FUTURE - now - 3600))); ("future", true) }
         };
@@ -49,6 +49,17 @@ pub fn run(ctx: &mut Ctx, _replay: Option<&str>) {
             3 => { m.insert("nbf".into(), json!(now + 120 + r.next() % 1000)); ("just-future", false) }
             _ => { m.insert("nbf".into(), json!(now + 120 + r.next() % (10 * Y))); ("future", false) }
         };
+        // iat plays no part in the window: whatever the issuer claims about its own clock, exp and nbf decide
+        let iat_class = match r.below(8) {
+            0 => { m.remove("iat"); "absent" }
+            1 => { m.insert("iat".into(), json!(now + 200 + r.next() % 400)); "future-minutes" }
+            2 => { m.insert("iat".into(), json!(now + 3600 + r.next() % Y)); "future-far" }
+            3 => { m.insert("iat".into(), json!(now - r.next() % (10 * Y))); "past" }
+            4 => { m.insert("iat".into(), json!((now + 500) as f64 + 0.5)); "future-fraction" }
+            5 => { m.insert("iat".into(), json!(*r.pick(&[0u64, 1, u32::MAX as u64, i64::MAX as u64, u64::MAX]))); "extreme" }
+            _ => "as-generated",
+        };
+        ctx.count(&format!("iat.{}", iat_class));
         ctx.count(&format!("exp.{}", exp_class));
         ctx.count(&format!("nbf.{}", nbf_class));
         ctx.count(&format!("fmt.{}.kb.{}", f.issue.fmt.name(), f.kb.is_some()));
